@@ -89,9 +89,22 @@ def check_answer(X, Y, q, d, xp, yp, i, reduced=()):
 class P(Prop):
     id = "C20"
     design_ref = "DESIGN.md section 5, C20"
-    theorems = []
-    partial = []
-    open_statements = []
+    M = "TracklibVerif.Props.C20"
+    theorems = [
+        (M, "TV.C20.proj_on_segment", "whenever proj_segment returns, the returned point lies on the segment (every orientation)"),
+        (M, "TV.C20.proj_dist_consistent", "the returned distance is the distance from the query to the returned point (every segment on which it returns)"),
+        (M, "TV.C20.proj_segment_min_partial", "non-vertical segment: proj_segment returns and its distance is <= the distance to every point of the segment"),
+        (M, "TV.C20.vertical_as_coded", "vertical segment, as coded: ZeroDivisionError or the nearer END point (never the foot)"),
+        (M, "TV.C20.proj_polyline_min_partial", "proj_polyligne: index of a non-skipped segment carrying the point, d = distance to it, d <= distance to every point of every non-vertical non-skipped segment and to the end points of all non-skipped ones"),
+        (M, "TV.C20.proj_polyline_total", "no vertical non-skipped segment and at least one non-skipped segment: proj_polyligne returns (no exception)"),
+        (M, "TV.C20.projOnTrack_spec", "__projOnTrack / mapOnTrack(coord) = proj_polyligne reordered as (point, distance, index)"),
+        (M, "TV.C20.mapOnTrack_rows", "mapOnTrack(track): one row per query, in order, row j = projection of query j"),
+        (M, "TV.C20.proj_segment_min_fails_on_vertical", "refutation of the full statement: segment (0,0)-(0,8), query (3,4), over every ordered field"),
+    ]
+    partial = ["proj_segment_min_partial / proj_polyline_min_partial: minimality proved for non-vertical segments only; for vertical segments the statement is "
+               "false of the code (D16, proj_segment_min_fails_on_vertical); points of skipped (near-)zero-length segments are covered only through the end "
+               "points of their non-skipped neighbours; IEEE rounding (D17) is outside the theorems and sampled by the transfer check"]
+    open_statements = ["proj_segment_min (all orientations): FALSE of the current code, kept as a comment in Props/C20.lean with its refutation"]
     modelled = ("util/geometry.py cartesienne, projection_droite (b == 0 special case as coded), proj_segment, proj_polyligne; "
                 "algo/mapping.py __projOnTrack, mapOnTrack (coordinate and track variants); Float instance, bit patterns")
     rule = ("exhaustive lattice scopes, then random polylines of 2..5 vertices built from oblique / horizontal / vertical / zero-length steps "
